@@ -153,6 +153,15 @@ def gen(rng, tier):
     for k in range(1, len(fr)):
         if rng.random() < 0.15:
             fr[k] = np.empty((0, ndim))
+    intf = []
+    if rng.random() < 0.3:
+        # frames delivered with whole-pixel coordinates in an INTEGER array (detections from a peak finder without sub-pixel
+        # refinement) between float frames: a remembered float particle then sits in one hash with integer points
+        for k in range(1, len(fr)):
+            if len(fr[k]) and rng.random() < 0.5:
+                r = np.round(fr[k])
+                if len({tuple(x) for x in r.tolist()}) == len(r):
+                    fr[k] = r; intf.append(k)
     far = False
     if rng.random() < 0.2:
         # stage-referenced coordinates: the whole movie sits near (131072, 98304, ...) while drift and search_range keep
@@ -175,11 +184,17 @@ def gen(rng, tier):
     for _ in fr:
         tags.append(t); t += 1 if rng.random() < 0.7 else rng.randint(2, 3)
     return dict(frames=fr, sr=sr, memory=mem, max_size=linkgen.LIMIT, strategy=rng.choice(['recursive', 'nonrecursive', 'numba']),
-                ndim=ndim, v=v, tags=tags)
+                ndim=ndim, v=v, tags=tags, int_frames=intf)
 
 
 def drifted(c):
     return [f + np.array(c['v'], dtype=float) * t if len(f) else f for f, t in zip(c['frames'], c['tags'])]
+
+
+def typed(c, frames):
+    """the frames as they are handed to trackpy: those listed in int_frames as int64 arrays (their values are whole)"""
+    ints = set(c.get('int_frames') or [])
+    return [f.astype(np.int64) if (k in ints and len(f) and np.array_equal(f, np.round(f))) else f for k, f in enumerate(frames)]
 
 
 def partition(labs_per_frame):
@@ -192,7 +207,7 @@ def partition(labs_per_frame):
 
 def jsonable(c, out=None):
     d = c02.jsonable(c, out)
-    d['v'] = c['v']; d['tags'] = c['tags']
+    d['v'] = c['v']; d['tags'] = c['tags']; d['int_frames'] = list(c.get('int_frames') or [])
     return d
 
 
@@ -250,6 +265,7 @@ def _run(chk):
                           dict(kind='direct', case=d))
     t_drift, t_plain, metas = [], [], []
     t_null, m_null = [], []
+    t_pp, m_pp = [], []
     for k in range(n):
         c = gen(chk.rng, chk.tier)
         if linkgen.max_inrange(c['frames'], c['sr'], c['memory']) > 8:
@@ -261,8 +277,10 @@ def _run(chk):
         def P(t1, particle, v=v):
             return particle.pos + v * (t1 - particle.t)
         dfr = drifted(c)
-        out_d = linkgen.run_link_iter(dfr, c['sr'], memory=c['memory'], link_strategy=c['strategy'], predictor=P, enumerate_t=c['tags'])
-        out_p = linkgen.run_link_iter(c['frames'], c['sr'], memory=c['memory'], link_strategy=c['strategy'], enumerate_t=c['tags'])
+        out_d = linkgen.run_link_iter(typed(c, dfr), c['sr'], memory=c['memory'], link_strategy=c['strategy'], predictor=P, enumerate_t=c['tags'])
+        out_p = linkgen.run_link_iter(typed(c, c['frames']), c['sr'], memory=c['memory'], link_strategy=c['strategy'], enumerate_t=c['tags'])
+        if c.get('int_frames'):
+            chk.tally('movie with integer-typed frames between float frames')
         if any(o is None for o in out_d + out_p):
             chk.tally('oversize (skipped)'); continue
         w, R2 = linkgen.metric_of(c['sr'], c['ndim'], 4)
@@ -271,6 +289,9 @@ def _run(chk):
                                                    clist([cZ(4 * x) for x in c['v']]), clist([cZ(t) for t in c['tags']])))
         t_plain.append("(%s, %s, %s)" % (head, linkgen.cframes(c['frames'], 4), linkgen.cobs(out_d)))
         same = partition(out_d) == partition(out_p)
+        if not same:
+            # the two sides of the property differ: each is judged on its own (a tie leaves both optimal)
+            t_pp.append("(%s, %s, %s)" % (head, linkgen.cframes(c['frames'], 4), linkgen.cobs(out_p))); m_pp.append((c, out_d, out_p))
         metas.append((c, out_d, out_p, same))
         chk.tally('memory=%d' % c['memory']); chk.tally('partition equal to plain run' if same else 'partition differs from plain run (tie expected)')
         if any(len(f) == 0 for f in c['frames'][1:]):
@@ -278,7 +299,7 @@ def _run(chk):
         # (b) NullPredict through link_df_iter
         if k % 3 == 0:
             cols = ['x', 'y', 'z'][:c['ndim']][::-1]
-            dfs = [pd.DataFrame({**{cc: f[:, i] for i, cc in enumerate(cols)}, 'frame': t}) for f, t in zip(c['frames'], c['tags'])]
+            dfs = [pd.DataFrame({**{cc: f[:, i] for i, cc in enumerate(cols)}, 'frame': t}) for f, t in zip(typed(c, c['frames']), c['tags'])]
             try:
                 outs = list(NullPredict().link_df_iter(dfs, linkgen.sr_float(c['sr']), memory=c['memory'], pos_columns=cols, link_strategy=c['strategy']))
                 labs = [[int(x) for x in o['particle'].values] for o in outs]
@@ -329,6 +350,13 @@ def _run(chk):
             chk.violation('drifted+predictor vs undrifted plain: %s' % CODES.get(b, b),
                           'partition of the drifted movie linked with the exact predictor is not a (tie-equivalent) linking of the undrifted movie: %s' % CODES.get(b, b),
                           dict(kind='drift-plain', code=b, case=jsonable(c, out_d), plain_labels=out_p))
+    rpp = common.coq_eval_lists(chk.work, IMPORTS, FUNC_PLAIN, t_pp, tag='plainside')
+    for (c, out_d, out_p), r in zip(m_pp, rpp):
+        if r != 0:
+            chk.violation('plain run of the undrifted movie: %s' % CODES.get(r, r),
+                          'the partition of the undrifted movie linked without predictor differs from the predictor run on the drifted movie, and it is not a tie: '
+                          'the plain labels are not an optimal linking (%s)' % CODES.get(r, r),
+                          dict(kind='plain-side', code=r, case=jsonable(c, out_p), predictor_labels=out_d))
     rn = common.coq_eval_lists(chk.work, IMPORTS, FUNC_PLAIN, t_null, tag='null')
     for (c, labs), r in zip(m_null, rn):
         chk.count(('null', jsonable(c, labs)), True)
@@ -373,13 +401,23 @@ def _replay(chk, path):
     ndim = len(cj['v'])
     frames = [f.reshape(len(f), ndim) for f in frames]
     c = dict(frames=frames, sr=(tuple(Fraction(x) for x in cj['search_range']) if isinstance(cj['search_range'], list) else Fraction(cj['search_range'])), memory=cj['memory'], max_size=cj['max_size'], strategy=cj['link_strategy'],
-             ndim=ndim, v=cj['v'], tags=cj['tags'])
+             ndim=ndim, v=cj['v'], tags=cj['tags'], int_frames=cj.get('int_frames') or [])
     v = np.array(c['v'], dtype=float)
+    if r.get('kind') == 'plain-side':
+        out_p = linkgen.run_link_iter(typed(c, c['frames']), c['sr'], memory=c['memory'], link_strategy=c['strategy'], enumerate_t=c['tags'])
+        w, R2 = linkgen.metric_of(c['sr'], ndim, 4)
+        head = "%s, %s, %s" % (linkgen.cmetric(w, R2), cnat(c['memory']), cnat(c['max_size']))
+        b = common.coq_eval_lists(chk.work, IMPORTS, FUNC_PLAIN, ["(%s, %s, %s)" % (head, linkgen.cframes(c['frames'], 4), linkgen.cobs(out_p))])[0]
+        chk.count(('replay', cj), True)
+        print('replay: labels of the plain run on the undrifted movie', out_p, 'monitor code', b, CODES.get(b))
+        if b != 0:
+            chk.violation('plain run of the undrifted movie: %s' % CODES.get(b, b), CODES.get(b, b), dict(kind='plain-side', code=b, case=jsonable(c, out_p)))
+        return
 
     @predictor
     def P(t1, particle):
         return particle.pos + v * (t1 - particle.t)
-    dfr = drifted(c)
+    dfr = typed(c, drifted(c))
     out_d = linkgen.run_link_iter(dfr, c['sr'], memory=c['memory'], link_strategy=c['strategy'], predictor=P, enumerate_t=c['tags'])
     w, R2 = linkgen.metric_of(c['sr'], ndim, 4)
     head = "%s, %s, %s" % (linkgen.cmetric(w, R2), cnat(c['memory']), cnat(c['max_size']))
